@@ -41,7 +41,12 @@ pub fn run<A: Cx>(d: &mut Drv<A>, focus: &str, scale: usize) {
     for (i, n) in sweep_lens(scale, w).into_iter().enumerate() {
         let off = (i * 7 + 3) % 67;
         let t = d.rand_syms(off + n + 2);
-        d.emit(json!({"op": "fromsyms", "dst": 0, "c": A::NAME, "via": "iter", "syms": t}));
+        // the parent itself has a history (interactions between features)
+        if d.rng.chance(1, 2) {
+            d.produce(0, &t);
+        } else {
+            d.emit(json!({"op": "fromsyms", "dst": 0, "c": A::NAME, "via": "iter", "syms": t}));
+        }
         let x = sl(0, off, off + n);
         // y: x with only its last symbol changed, at another offset in another register
         let mut y: Vec<u8> = t[off..off + n].to_vec();
